@@ -316,7 +316,8 @@ def to_voxel(
     if isinstance(self, Voxel):
         return self.copy()
     elif isinstance(self, VoxelCenter):
-        return make_voxel(self)
+        # Floor (not truncate) to also cover voxel centers with negative indices
+        return make_voxel(np.floor(np.asarray(self)))
     elif isinstance(self, Coordinate):
         assert coordinatesystem is not None, "coordinatesystem must be provided"
         return make_voxel(coordinatesystem.voxel(self))
